@@ -73,12 +73,87 @@ Definition p_proc (t : text) : option proc :=
   else if text_eqb t (T "S") then Some PPDS else if text_eqb t (T "4") then Some PDE43 else None.
 Definition p_optnat (t : text) : option (option nat) :=
   if text_eqb t (T "N") then Some None else option_map Some (p_nat t).
+(* the regex fragment (harness/rx.py `proto`): tokens separated by "."
+     a<q>                any character        s<neg><items>q<q>   a set: items separated by "_": L<c> R<lo>t<hi> W<neg> N<neg>
+     g<hex name> ... e   a group              z<strict>  end anchor      b  start anchor        <q> = <min>x<max|i><g|l> *)
+Definition p_quant (t : text) : option (nat * option nat * bool) :=
+  match split "x"%byte t with
+  | [mn; r] =>
+    match rev r with
+    | gl :: mxr =>
+      let mx := rev mxr in
+      obind (p_nat mn) (fun mn =>
+      obind (if Byte.eqb gl "g"%byte then Some true else if Byte.eqb gl "l"%byte then Some false else None) (fun g =>
+      if text_eqb mx (T "i") then Some (mn, None, g) else option_map (fun m => (mn, Some m, g)) (p_nat mx)))
+    | [] => None
+    end
+  | _ => None
+  end.
+Definition p_ci (t : text) : option cls_item :=
+  match t with
+  | c :: r =>
+    if Byte.eqb c "L"%byte then option_map CILit (p_N r)
+    else if Byte.eqb c "R"%byte then
+      match split "t"%byte r with
+      | [lo; hi] => obind (p_N lo) (fun lo => option_map (CIRange lo) (p_N hi))
+      | _ => None
+      end
+    else if Byte.eqb c "W"%byte then option_map CISpace (p_bool r)
+    else if Byte.eqb c "N"%byte then option_map CIDigit (p_bool r)
+    else None
+  | [] => None
+  end.
+Fixpoint p_re_toks (toks : list text) (stack : list (option str * list re)) (cur : list re) : option regex :=
+  match toks with
+  | [] => match stack with [] => Some (rev cur) | _ => None end
+  | t :: rest =>
+    match t with
+    | c :: r =>
+      if Byte.eqb c "a"%byte then
+        obind (p_quant r) (fun q => let '(mn, mx, g) := q in p_re_toks rest stack (RChar CAny mn mx g :: cur))
+      else if Byte.eqb c "s"%byte then
+        match r with
+        | ng :: r' =>
+          match split "q"%byte r' with
+          | [items; q] =>
+            obind (p_bool [ng]) (fun ng =>
+            obind (match items with [] => Some [] | _ => all_some (map p_ci (split "_"%byte items)) end) (fun items =>
+            obind (p_quant q) (fun q => let '(mn, mx, g) := q in
+              p_re_toks rest stack (RChar (CSet ng items) mn mx g :: cur))))
+          | _ => None
+          end
+        | [] => None
+        end
+      else if Byte.eqb c "g"%byte then
+        obind (match r with [] => Some None | _ => option_map (@Some str) (p_str r) end) (fun nm =>
+          p_re_toks rest ((nm, cur) :: stack) [])
+      else if Byte.eqb c "e"%byte then
+        match r, stack with
+        | [], (nm, outer) :: st => p_re_toks rest st (RGroup nm (rev cur) :: outer)
+        | _, _ => None
+        end
+      else if Byte.eqb c "z"%byte then obind (p_bool r) (fun b => p_re_toks rest stack (REnd b :: cur))
+      else if text_eqb t (T "b") then p_re_toks rest stack (RStart :: cur)
+      else None
+    | [] => None
+    end
+  end.
+Definition p_de43 (t : text) : option de43cfg :=
+  if text_eqb t (T "0") then Some D43None
+  else if text_eqb t (T "U") then Some D43Unsupported
+  else match t with
+       | c :: r => if Byte.eqb c "r"%byte
+                   then match r with [] => Some (D43Re []) | _ => option_map D43Re (p_re_toks (split "."%byte r) [] []) end
+                   else None
+       | [] => None
+       end.
+
 Definition p_fieldcfg (t : text) : option (nat * fieldcfg) :=
   match split ":"%byte t with
   | [b; ft; fl; pt; df; pr; pc] =>
     obind (p_nat b) (fun b => obind (p_ftype ft) (fun ft => obind (p_optnat fl) (fun fl =>
     obind (p_ptype pt) (fun pt => obind (p_str df) (fun df => obind (p_proc pr) (fun pr =>
-    option_map (fun pc => (b, mkfc ft fl pt df pr pc)) (p_bool pc)))))))
+    option_map (fun pc => (b, mkfc ft fl pt df pr pc)) (p_de43 pc)))))))
   | _ => None
   end.
 Definition p_cfg (t : text) : option cfgT :=
